@@ -18,6 +18,10 @@ pub const BACKEND: &str = "native-tls";
 pub const BACKEND: &str = "rustls";
 #[cfg(all(feature = "plain", not(feature = "native"), not(feature = "rtls")))]
 pub const BACKEND: &str = "none (plain HTTP build)";
+#[cfg(all(feature = "mixna", not(feature = "native"), not(feature = "rtls"), not(feature = "plain")))]
+pub const BACKEND: &str = "mixed: blocking native-tls + async rustls";
+#[cfg(all(feature = "mixrn", not(feature = "native"), not(feature = "rtls"), not(feature = "plain"), not(feature = "mixna")))]
+pub const BACKEND: &str = "mixed: blocking rustls + async native-tls";
 
 /// reference bytes (header + attributes + data) of a model
 pub fn ref_bytes(m: &Model) -> Vec<u8> {
